@@ -20,6 +20,7 @@ NETS = ['bitcoin', 'testnet', 'testnet4', 'signet', 'regtest', 'litecoin', 'lite
         'dogecoin', 'dogecoin_testnet', 'bitcoinlib_test']
 JVM_ENV = {'JAVA_TOOL_OPTIONS': '-Xss48m'}       # the Bech32 folds recurse deeper than the default 1 MB thread stack
 OBJ_ROUTES = ('parse', 'parse_nw', 'obj', 'obj_data', 'hdkey', 'tx_obj', 'tx_hdkey', 'akey', 'tx_akey')
+HASH_TYPES = ('p2pkh', 'p2sh', 'p2wpkh', 'p2wsh', 'p2tr', 'p2sh_p2wpkh', 'p2sh_p2wsh')
 KEY_ROUTES = ('hdkey', 'tx_hdkey', 'akey', 'tx_akey')     # akey: the key's Address object (key.address_obj) is handed over
 
 
@@ -84,7 +85,8 @@ def apply_priors(table, obj, names):
             raise
         except Exception:
             pass
-NOOBS = {'ok': False, 'lock': [], 'type': '', 'addr': [], 'hash': [], 'witver': 0, 'nw': ''}
+NOOBS = {'ok': False, 'lock': [], 'type': '', 'addr': [], 'hash': [], 'witver': 0, 'nw': '', 'addr2': [], 'addr3': [],
+         'rtok': False, 'rtlock': []}
 
 
 def codes(s):
@@ -175,6 +177,14 @@ def build_key(job):
         key = ('key', job['x'], job['wt'], bool(job.get('ms')), job['pub'])
         return key, {'what': 'key', 'x': job['x'], 'y': job['y'], 'dk': '', 'wv': 0, 'p': p, 'mut': '', 'wt': job['wt'],
                      'ms': bool(job.get('ms')), 'pub': list(bytes.fromhex(job['pub'])), 'st': ''}
+    if r == 'hash':
+        key = ('hash', job['x'], job['st'], job['wv'], job['p'])
+        return key, {'what': 'hash', 'x': job['x'], 'y': job['y'], 'dk': '', 'wv': job['wv'], 'p': p, 'mut': '', 'wt': '',
+                     'ms': False, 'pub': [], 'st': job['st']}
+    if r == 'pubkey':
+        key = ('data', job['x'], job['st'], job['pub'])
+        return key, {'what': 'data', 'x': job['x'], 'y': job['y'], 'dk': '', 'wv': 0, 'p': [], 'mut': '', 'wt': '',
+                     'ms': False, 'pub': list(bytes.fromhex(job['pub'])), 'st': job['st']}
     if r == 'obj_data':
         key = ('data', job['x'], job['st'], job['data'])
         return key, {'what': 'data', 'x': job['x'], 'y': job['y'], 'dk': '', 'wv': 0, 'p': [], 'mut': '', 'wt': '',
@@ -205,6 +215,23 @@ def _observe(make):
         obs['addr'] = codes(o.address or '')
     except Exception:
         obs['addr'] = []          # asking the output for its address failed: no address is reported
+    # the other views of the address, and the way back: paying to the reported address in the same network
+    try:
+        ao = o.address_obj
+        obs['addr2'] = codes((ao.address if ao else '') or '')
+    except Exception:
+        obs['addr2'] = []
+    try:
+        obs['addr3'] = codes(o.as_dict().get('address') or '')
+    except Exception:
+        obs['addr3'] = []
+    obs['rtok'], obs['rtlock'] = False, []
+    if obs['addr']:
+        try:
+            obs['rtlock'] = list(Output(1000, address=text(obs['addr']), network=obs['nw']).lock_script)
+            obs['rtok'] = True
+        except Exception:
+            pass
     return obs
 
 
@@ -228,12 +255,12 @@ def drive(job, b):
     a0 = text(b['addr'])
     if r == 'pubkey' and job['st'] == 'p2tr':
         a0 = ''       # a P2TR output from a public key needs the taproot tweak: outside what this specification builds
-    isk = r in KEY_ROUTES or r == 'obj_data'
+    isk = r in KEY_ROUTES or r in ('obj_data', 'hash', 'pubkey')
     prior = list(job.get('prior') or [])
     rec = {'k': 'fwd', 'route': r, 'x': job['x'], 'y': y, 'dk': b['dk'] if isk else job['dk'],
            'wv': b['wv'] if isk else job['wv'], 'p': b['p'] if isk else list(p), 'st': job.get('st', ''),
            'a0': codes(a0), 'hasobj': r in OBJ_ROUTES, 'objok': True, 'oa': [], 'facts': [], 'prior': prior,
-           'pu': list(bytes.fromhex(job.get('pu', ''))), 'ot': ''}
+           'pu': list(bytes.fromhex(job.get('pu', ''))), 'ot': '', 'h': list(p)}
     st = job.get('st') or None
     if r == 'str':
         rec['obs'] = _observe(lambda: Output(1000, address=a0, network=y))
@@ -292,7 +319,9 @@ def drive(job, b):
         else:
             rec['obs'] = _observe(lambda: Output(1000, address=obj, network=y))
     elif r == 'hash':
-        kw = {'witver': job['wv']} if job['dk'] == 'wit' and job['wv'] >= 1 else {}
+        kw = {'witver': job['wv']} if job['wv'] >= 0 else {}      # -1: the witness version argument is left out
+        if job.get('enc'):
+            kw['encoding'] = job['enc']
         rec['obs'] = _observe(lambda: Output(1000, public_hash=p, script_type=st, network=y, **kw))
     elif r == 'pubkey':
         pub = bytes.fromhex(job['pub'])
@@ -300,7 +329,8 @@ def drive(job, b):
             k = HDKey.from_seed(bytes.fromhex(job['seed']), network=job['x'])
             apply_priors(KEY_PRIORS, k, prior)
             pub = k.public_byte
-        rec['obs'] = _observe(lambda: Output(1000, public_key=pub, script_type=st, network=y))
+        kw = {'encoding': job['enc']} if job.get('enc') else {}
+        rec['obs'] = _observe(lambda: Output(1000, public_key=pub, script_type=st, network=y, **kw))
     else:
         raise common.MachineryError('unknown route %r' % r)
     return rec
@@ -360,16 +390,18 @@ def enumerate_jobs(rng, thorough, nets, allow_uncompressed=False):
                     if sty == styles[0] or thorough or y == x or x in sweep:
                         job('str', x, y, d, p)
             p = payload(rng, d[2], 'rand')
+            # an Address object of network x handed to an output / transaction of every network y (ordered pairs)
+            for y in nets:
+                job('obj', x, y, d, p, st=lib_type(d[0], d[1], d[2]))
+                job('tx_obj', x, y, d, p, st=lib_type(d[0], d[1], d[2]))
             for y in others(x, 2 if not thorough else 10):
                 job('tx', x, y, d, p)
                 job('parse', x, y, d, p)
-                job('obj', x, y, d, p, st=lib_type(d[0], d[1], d[2]))
                 if y == x:
                     job('obj', x, y, d, p, st=lib_type(d[0], d[1], d[2]), prior=[rng.choice(sorted(ADDR_PRIORS))])
                     job('parse', x, y, d, p, prior=[rng.choice(sorted(ADDR_PRIORS)), rng.choice(sorted(ADDR_PRIORS))])
                 if thorough or y == x or rng.random() < 0.5:
                     job('parse_nw', x, y, d, p)
-                    job('tx_obj', x, y, d, p, st=lib_type(d[0], d[1], d[2]))
         for d in STD:
             p = payload(rng, d[2], 'hextext')
             job('str', x, x, d, p)
@@ -396,8 +428,11 @@ def enumerate_jobs(rng, thorough, nets, allow_uncompressed=False):
             def kjob(route, y, prior, x0='', variant='master'):
                 jobs.append({'route': route, 'x': x, 'y': y, 'dk': '', 'wv': 0, 'p': '', 'st': '', 'mut': '', 'wt': wt,
                              'ms': ms, 'variant': variant, 'seed': seed.hex(), 'prior': prior, 'x0': x0})
-            for y in others(x, 2 if not thorough else 10):
+            # an HD key of network x handed to an output / transaction of every network y (ordered pairs)
+            for y in (nets if not ms or thorough else others(x, 2)):
                 kjob('hdkey', y, [])
+                if y != x and not ms:
+                    kjob('tx_hdkey', y, [])
             # every kind of key object (master / child / public-only), directly, through a transaction, and through the
             # Address object the key owns
             for var in ('master', 'child', 'public', 'child_public'):
@@ -423,21 +458,32 @@ def enumerate_jobs(rng, thorough, nets, allow_uncompressed=False):
             kjob('tx_hdkey', x, ['addr_default', 'netchange:' + x], x0=x0)
     for y in nets:
         # -- hash + script_type, public key + script_type (address network = transaction network)
-        for d in STD + [('wit', v, 32) for v in ((2, 16) if not thorough else range(2, 17))]:
-            p = payload(rng, d[2], 'rand')
-            job('hash', y, y, d, p, st=lib_type(*d))
-        for d in STD:
-            job('hash', y, y, d, payload(rng, d[2], 'hextext'), st=lib_type(*d))
-        for d in [('pkh', 0, 19), ('pkh', 0, 21), ('pkh', 0, 32), ('sh', 0, 19), ('sh', 0, 21), ('sh', 0, 32),
-                  ('wit', 0, 19), ('wit', 0, 21), ('wit', 0, 31), ('wit', 0, 33)]:
-            if thorough or rng.random() < 0.4:
-                job('hash', y, y, d, payload(rng, d[2], 'rand'), st=lib_type(*d))
-        for st, d in (('p2pkh', ('pkh', 0, 20)), ('p2wpkh', ('wit', 0, 20)), ('p2tr', ('wit', 1, 20))):
+        # every script type Output can be asked to build from a bare hash: both sizes, witness version argument left out
+        # or given, encoding inferred or given (the encoding that goes with the type).  Which of them is a destination,
+        # and which one, is the specification's business (HashPlan).
+        def hjob(st, n, wv, enc, style='rand'):
+            jobs.append({'route': 'hash', 'x': y, 'y': y, 'dk': '', 'wv': wv, 'p': payload(rng, n, style).hex(), 'st': st,
+                         'mut': '', 'wt': '', 'enc': enc})
+        for st in HASH_TYPES:
+            given = 'bech32' if st in ('p2wpkh', 'p2wsh', 'p2tr') else 'base58'
+            for n in (20, 32):
+                hjob(st, n, -1, '')
+                hjob(st, n, -1 if rng.random() < 0.5 else 0, given)
+            if thorough or y in sweep:
+                hjob(st, 20 if st in ('p2pkh', 'p2sh', 'p2wpkh', 'p2sh_p2wpkh') else 32, -1, '', 'hextext')
+                for n in (19, 21, 31, 33):
+                    hjob(st, n, -1, '')
+        for v in range(0, 17):
+            if thorough or y in sweep or v in (0, 1, 2, 16):
+                hjob('p2tr', 32, v, '' if v % 2 else 'bech32')
+                hjob('p2tr', 20, v, '')
+        for st in HASH_TYPES:
             seed = payload(rng, 32, 'rand')
-            jobs.append({'route': 'pubkey', 'x': y, 'y': y, 'dk': d[0], 'wv': d[1], 'p': '', 'st': st, 'mut': '', 'wt': '',
-                         'seed': seed.hex()})
-            if st != 'p2tr':
-                jobs.append({'route': 'pubkey', 'x': y, 'y': y, 'dk': d[0], 'wv': d[1], 'p': '', 'st': st, 'mut': '', 'wt': '',
+            for enc in ('', 'bech32' if st in ('p2wpkh', 'p2wsh', 'p2tr') else 'base58'):
+                jobs.append({'route': 'pubkey', 'x': y, 'y': y, 'dk': '', 'wv': 0, 'p': '', 'st': st, 'mut': '', 'wt': '',
+                             'seed': seed.hex(), 'enc': enc})
+            if st in ('p2pkh', 'p2wpkh'):
+                jobs.append({'route': 'pubkey', 'x': y, 'y': y, 'dk': '', 'wv': 0, 'p': '', 'st': st, 'mut': '', 'wt': '',
                              'seed': seed.hex(), 'prior': [rng.choice(['addr_p2pkh_base58', 'addr_p2wpkh_bech32', 'wif',
                                                                        'public', 'as_dict'])]})
         # -- raw locking scripts: intact templates, future witness programs, damaged templates
@@ -483,7 +529,7 @@ def klass(job, b):
     rel = 'same' if job['x'] == job['y'] else 'other'
     return (job['route'], job['dk'] or job['wt'], job['wv'], len(job['p']) // 2, job['mut'], job['st'], job['x'],
             job['y'] if job['route'] in ('str', 'lock') else rel, tuple(job.get('prior') or ()), bool(job.get('x0')),
-            bool(job.get('ms')), job.get('variant') or '')
+            bool(job.get('ms')), job.get('variant') or '', job.get('enc') or '')
 
 
 def run(replay=None):
@@ -568,7 +614,8 @@ def run(replay=None):
     # -- relational judgement: the witness versions 1..16 of one program size are answered alike (all or none) on a route
     groups = {}
     for j, rec, v in zip(jobs, recs, verdicts):
-        if v['v'] != 'ok' or j['dk'] != 'wit' or j['wv'] < 1 or j.get('mut') not in ('', 'none') or j.get('prior'):
+        if v['v'] != 'ok' or rec.get('dk', j['dk']) != 'wit' or j['wv'] < 1 or j.get('mut') not in ('', 'none') \
+                or j.get('prior') or j.get('st') not in ('', 'p2tr'):
             continue
         n = len(j['p']) // 2
         if rec['k'] == 'rev' and n not in (20, 32):
